@@ -108,7 +108,7 @@ def bounds(tier):
 def chunks(tier):
     regs = _regs(tier)
     step = 2 if tier == "quick" else 8
-    out = [("A", i) for i in range(len(SINGLE))] + [("E",)]
+    out = [("A", i) for i in range(len(SINGLE))] + [("E",)] + [("AH", k) for k in range(len(AFTER_OPS))]
     for s in range(len(SHAPES)):
         out.append(("T", s))
         out.append(("RH", s))
@@ -254,11 +254,11 @@ def _substances(shape):
 _BUILD = collections.OrderedDict()
 
 
-def _build(shape, rc, mode, ks, out=None, reg=None):
+def _build(shape, rc, mode, ks, out=None, reg=None, pp=None):
     """the real ReactionSystem + get_odesys result for one configuration (small LRU cache); with `reg` the given
     registry object is used as it is (no cache): see op_rate_seq"""
     key = (shape, tuple(rc), mode, tuple(ks) if mode == "inline" else None, tuple(out) if out else None)
-    if reg is None and key in _BUILD:
+    if reg is None and pp is None and key in _BUILD:
         return _BUILD[key]
     env = E()
     chempy, ode = env["chempy"], env["ode"]
@@ -275,8 +275,10 @@ def _build(shape, rc, mode, ks, out=None, reg=None):
     kw = {}
     if out:
         kw = dict(output_conc_unit=env["conc"][out[0]], output_time_unit=env["time"][out[1]])
+    if pp is not None:
+        kw["post_processors"] = pp  # a caller-owned list of additional post-processors (here: always empty, shared between builds)
     odesys, extra = ode.get_odesys(rsys, include_params=(mode == "inline"), unit_registry=(_registry(rc) if reg is None else reg), **kw)
-    if reg is not None:
+    if reg is not None or pp is not None:
         return rsys, odesys, extra
     _BUILD[key] = (rsys, odesys, extra)
     while len(_BUILD) > 8:
@@ -333,6 +335,66 @@ def op_accept(res, si_, ci, ti, wi):
             res.outcomes["reaction-wrong-dimension-ACCEPTED"] += 1
             res.violation("C10|Reaction|order-%d|wrong-dimension-accepted" % n, "Reaction(%s, param=%s) was accepted; order %d needs concentration^%d/time"
                           % (case["reaction"], desc, n, 1 - n), case, "accepted", "exception")
+
+
+AFTER_OPS = ["Reaction(dont_check={'consistent_units'})", "Equilibrium(dont_check={'consistent_units'})", "Reaction(checks=())", "Reaction(dont_check={'all_integral'})"]
+
+
+def seq_accept_after(first_op):
+    """(own interpreter) one object built with a check legitimately switched off for itself, then ordinary constructions
+    with default checks: [[class, reaction index, wrong index or None, 'accepted' | exception name]]"""
+    chempy = E()["chempy"]
+    u = E()["u"]
+    bad = 3 * u.kelvin  # a constant of plainly wrong dimension for the object built first
+    try:
+        if first_op.startswith("Equilibrium"):
+            chempy.Equilibrium({"A": 1}, {"B": 2}, bad, dont_check={"consistent_units"})
+        elif "checks=()" in first_op:
+            chempy.Reaction({"A": 1}, {"B": 1}, bad, checks=())
+        elif "all_integral" in first_op:
+            chempy.Reaction({"A": 1}, {"B": 1}, 3 / u.second, dont_check={"all_integral"})
+        else:
+            chempy.Reaction({"A": 1}, {"B": 1}, bad, dont_check={"consistent_units"})
+        first = "accepted"
+    except Exception as e:
+        first = type(e).__name__
+    out = []
+    for si_, (reac, prod) in enumerate(SINGLE):
+        n = _order(reac)
+        for wi in [None] + list(range(len(WRONG))):
+            k = _kq(KMAG, n, 0, 0)
+            if wi is not None:
+                k = _wrong(k, wi)
+            got = _obs(lambda: chempy.Reaction(reac, prod, k))
+            out.append(["Reaction", si_, wi, got if _isexc(got) else "accepted"])
+    for ei, (reac, prod) in enumerate(EQS):
+        dnu = sum(prod.values()) - sum(reac.values())
+        for wi in [None] + list(range(len(WRONG))):
+            K = 3 * u.molar ** dnu
+            if wi is not None:
+                K = _wrong(K, wi)
+            got = _obs(lambda: chempy.Equilibrium(reac, prod, K))
+            out.append(["Equilibrium", ei, wi, got if _isexc(got) else "accepted"])
+    return dict(first=first, later=out)
+
+
+def op_accept_after(res, k):
+    from mc import isolated
+
+    first_op = AFTER_OPS[k]
+    got = isolated.run("mc.checks.c10", "seq_accept_after", [first_op])
+    for cls, i, wi, obs in got["later"]:
+        res.states += 1
+        res.transitions += 2
+        res.evaluations += 1
+        res.nontrivial += 1
+        want_accept = wi is None
+        ok = (obs == "accepted") == want_accept
+        res.outcomes["after-%s:%s" % (first_op.split("(")[0], "ok" if ok else "WRONG")] += 1
+        if not ok:
+            res.violation("C10|%s|history|after %s|%s" % (cls, first_op, "wrong-dimension-accepted" if not want_accept else "right-dimension-rejected"),
+                          "after one %s, %s #%d with a constant of %s dimension and default checks: %s" % (first_op, cls, i, "the right" if want_accept else "a wrong (x %s**%d)" % tuple(WRONG[wi]), obs),
+                          dict(op="accept_after", args=[k], cls=cls, i=i, wi=wi), obs, "accepted" if want_accept else "exception")
 
 
 def op_accept_exponent(res, si_, ci, ti, j):
@@ -577,13 +639,30 @@ def _out(outsel, ks):
     return ((ks[0] + d) % len(CONC), (ks[1] + d) % len(TIME))
 
 
-def op_integrate(res, shape, rc, mode, ks, outsel):
+def op_integrate_seq(res, shape, rc_seq, mode, ks, outsel):
+    """several unit-aware systems built one after the other with the SAME (empty) caller-owned `post_processors` list:
+    each integrates to the reference and reports in its own units — the whole sequence is one case"""
+    shared = []
+    for n, rc in enumerate(rc_seq):
+        before = len(res.violations)
+        op_integrate(res, shape, rc, mode, ks, outsel, pp=shared, seq=[list(r) for r in rc_seq], step=n)
+        if len(res.violations) > before:
+            return
+    res.evaluations += 1
+    if shared:
+        res.violation("C10|get_odesys|post_processors|callers-list-modified", "the caller's (empty) post_processors list holds %d entries after %d builds" % (len(shared), len(rc_seq)),
+                      dict(op="integrate_seq", args=[shape, [list(r) for r in rc_seq], mode, list(ks), outsel]), len(shared), 0)
+
+
+def op_integrate(res, shape, rc, mode, ks, outsel, pp=None, seq=None, step=None):
     """integrate() with quantities in and out: end point = reference solution; output units as requested"""
     np = E()["np"]
     rc, ks = tuple(rc), tuple(ks)
     out = _out(outsel, ks)
     case = dict(op="integrate", args=[shape, list(rc), mode, list(ks), outsel], shape=SHAPES[shape][0], registry=_reg_text(rc),
                 k="3 %s**(1-n)/%s" % (CONC[ks[0]][0], TIME[ks[1]][0]), out=None if out is None else [CONC[out[0]][0], TIME[out[1]][0]])
+    if seq is not None:
+        case.update(op="integrate_seq", args=[shape, seq, mode, list(ks), outsel], registry="builds sharing one post_processors list: %r, step %d" % ([_reg_text(tuple(r)) for r in seq], step))
     res.states += 1
     res.transitions += 2
     res.nontrivial += 1
@@ -597,7 +676,7 @@ def op_integrate(res, shape, rc, mode, ks, outsel):
     ref = _reference(shape)
 
     def run():
-        rsys, odesys, extra = _build(shape, rc, mode, ks, out)
+        rsys, odesys, extra = _build(shape, rc, mode, ks, out, pp=pp)
         c, _ = _state(5 + ks[0])
         r = odesys.integrate(tq, {s: c[s] for s in subs}, _params(shape, ks, mode), integrator="scipy", atol=float(CREF / fc) * 1e-13, rtol=1e-10)
         return list(odesys.names), r.xout, r.yout, getattr(r, "params", None), bool(r.info["success"])
@@ -636,7 +715,7 @@ def op_integrate(res, shape, rc, mode, ks, outsel):
                       [um_t.tolist(), um_c.tolist()], [float(exp_t), float(exp_c)])
     else:
         res.outcomes["output-units-ok|%s" % ("requested" if out else "registry")] += 1
-    if mode != "inline":
+    if mode != "inline" and pp is None:
         consts = {"k%d" % j: (n, k) for j, (n, k, sp, mag) in enumerate(_constants(shape, ks))}
         rsys, odesys, extra = _build(shape, rc, mode, ks, out)
         res.evaluations += 1
@@ -894,6 +973,9 @@ def run_chunk(chunk, tier):
         _layer_I(res, tier, *chunk[1:])
     elif kind == "V":
         _layer_V(res, tier, *chunk[1:])
+    elif kind == "AH":
+        op_accept_after(res, chunk[1])
+        res.sample(dict(layer="AH", first=AFTER_OPS[chunk[1]], then="every reaction / equilibrium shape with the right and with each wrong dimension, default checks"))
     elif kind == "RH":
         shape = chunk[1]
         regs = [(0, 0, 0, 0), (2, 0, 0, 0), (1, 1, 1, 0), (0, 1, 0, 0)]
@@ -901,6 +983,9 @@ def run_chunk(chunk, tier):
             for seq in itertools.permutations(regs, n):
                 for mode in ("inline", "named"):
                     op_rate_seq(res, shape, [list(r) for r in seq], mode, (0, 0), 5)
+        for seq in itertools.permutations(regs[:3], 2):
+            for outsel in (None, "rot"):
+                op_integrate_seq(res, shape, [list(r) for r in seq], "inline", (0, 0), outsel)
         res.sample(dict(layer="RH", shape=SHAPES[shape][0], registries=[_reg_text(r) for r in regs]))
     elif kind == "T":
         _layer_T(res, tier, chunk[1])
@@ -909,12 +994,14 @@ def run_chunk(chunk, tier):
     return res
 
 
-OPS = dict(rate_seq=op_rate_seq, accept=op_accept, accept_exponent=op_accept_exponent, eq=op_eq, eq_exponent=op_eq_exponent, rate=op_rate, integrate=op_integrate, validate=op_validate, solve=op_solve, to_arrays_reject=op_to_arrays_reject)
+OPS = dict(integrate_seq=op_integrate_seq, accept_after=op_accept_after, rate_seq=op_rate_seq, accept=op_accept, accept_exponent=op_accept_exponent, eq=op_eq, eq_exponent=op_eq_exponent, rate=op_rate, integrate=op_integrate, validate=op_validate, solve=op_solve, to_arrays_reject=op_to_arrays_reject)
 
 
 def replay(case):
     res = Result()
     OPS[case["op"]](res, *case["args"])
+    if case["op"] == "accept_after":
+        res.violations = [v for v in res.violations if all(v["case"].get(f) == case.get(f) for f in ("cls", "i", "wi"))]
     if res.violations:
         v = res.violations[0]
         return dict(key=v["key"], what=v["what"], observed=v["observed"], expected=v["expected"])
